@@ -299,7 +299,13 @@ def checkImplReqs (st : ProcEng) (reqs : List ImplReq) : ProcEng × List String 
       let f7 := match capOf with
         | some 0 => [s!"C12 proc: a {q.cmd} request was sent although the limit negotiated for that category of its run is zero"]
         | _ => []
-      ({ st with sends := sends }, fails ++ f1 ++ f2 ++ f3 ++ f4 ++ f5 ++ f6 ++ f7)) (st, [])
+      -- C07: every name reported for a run is the image, under THAT run's rename rules, of a metric submitted under it
+      let f8 := if q.cmd == "metric_data" && !st.tainted.contains q.run then
+          let strangers := (quantitiesOfPayloadStr q.payload).filter (fun x => !(st.qOffered.any (fun e => e.1 == (q.run, x.1))))
+          if strangers.isEmpty then [] else
+            [s!"C07 proc: a metric_data payload of run {q.run} reports {(strangers.map (·.1)).take 3}, which no metric submitted under that run is renamed to by the rules of its connect reply"]
+        else []
+      ({ st with sends := sends }, fails ++ f1 ++ f2 ++ f3 ++ f4 ++ f5 ++ f6 ++ f7 ++ f8)) (st, [])
 
 /-- ids of a run that left the model's containers without being sent: evicted by capacity or given up -/
 def noteEvictions (st : ProcEng) (run : String) (before : List (String × Nat)) (incoming : List (String × Nat)) : ProcEng :=
